@@ -118,3 +118,71 @@ def file_small_edit(mod):
         if q not in mod.funcs:
             return False, f"{q} of the reviewed tree is gone"
     return True, "all functions as reviewed or nearly so"
+
+
+# ---------------------------------------------------------------------------------------------------------------
+# The same for .hy sources: top-level forms, compared token by token (strings and comments do not count)
+# ---------------------------------------------------------------------------------------------------------------
+
+HY_SMALL = 12      # tokens inserted + deleted
+
+
+def hy_key(form):
+    h = form.head() or form.kind
+    nm = form.items[1].src()[:60] if form.kind == "expr" and len(form.items) > 1 else ""
+    return f"{h} {nm}"
+
+
+def hy_tokens(form):
+    out = []
+    for n in form.walk():
+        if n.kind in ("sym", "kw", "num"):
+            out.append(n.src())
+        elif n.kind == "str":
+            out.append("<str>" if len(n.val) > 30 else n.src())
+        else:
+            out.append(n.kind)
+    return [hashlib.sha1(t.encode()).hexdigest()[:6] for t in out]
+
+
+def hy_forms(hyfile):
+    res = {}
+    for f in hyfile.forms:
+        if f.kind == "expr":
+            k = hy_key(f)
+            while k in res:
+                k += "'"
+            res[k] = f
+    return res
+
+
+def hy_end_line(form):
+    return max((n.line for n in form.walk()), default=form.line)
+
+
+def hy_small_edit(hyfile, line):
+    rev = reviewed().get(hyfile.rel)
+    if rev is None:
+        return False, f"{hyfile.rel} is not a file of the reviewed tree"
+    forms = hy_forms(hyfile)
+    if line:
+        hit = [(k, f) for k, f in forms.items() if f.line <= line <= hy_end_line(f)]
+        if not hit:
+            return False, "no enclosing top-level form"
+        todo = hit[-1:]
+    else:
+        todo = list(forms.items())
+        gone = [k for k in rev if k not in forms]
+        if gone:
+            return False, f"top-level form `{gone[0]}` of the reviewed tree is gone"
+    for k, f in todo:
+        want = rev.get(k)
+        if want is None:
+            return False, f"`{k}` is not a top-level form of the reviewed tree"
+        got = hy_tokens(f)
+        sm = difflib.SequenceMatcher(a=want, b=got, autojunk=False)
+        same = sum(b.size for b in sm.get_matching_blocks())
+        ch = (len(want) - same) + (len(got) - same)
+        if ch > HY_SMALL:
+            return False, f"`{k}`: {ch} of {len(want)} reviewed tokens changed"
+    return True, "as reviewed or nearly so"
